@@ -189,16 +189,27 @@ def lazy_pairs(ctx, n):
     rng = ctx.rng
     for k in range(n):
         r = random.Random(rng.getrandbits(48))
-        irres = k % 3 == 0
-        m = r.randint(4, 5) if irres else r.randint(5, 7)
-        names = r.sample(["q%02d" % i for i in range(24)], m)
-        pool = r.choice([[2, 2, 3, 3, 4], [1, 2, 2, 3]]) if irres else r.choice([[30, 31, 40, 70, 72, 45, 55], [3, 4, 5, 7, 8, 9, 11], [2, 3, 5, 8, 13]])
+        irres = k % 4 == 0
+        if irres:
+            m = r.randint(4, 5)
+            names = r.sample(["q%02d" % i for i in range(24)], m)
+            pool = r.choice([[2, 2, 3, 3, 4], [1, 2, 2, 3]])
+            nv = r.randint(4, 6)
+            distinct = [[x for x in names if r.random() < 0.5] or [names[0]] for _ in range(r.randint(3, 5))]
+            ballots = [list(r.choice(distinct)) for _ in range(nv)]
+            fr = F(r.choice([2, 3, 3, 4]), 4)
+        else:
+            # independent sparse ballots over 7-9 projects, budget near the total: the shape on which the stored bounds of several
+            # projects are raised and overtaken (about 1 run in 700 separates a scan ordered by the initial bound from the real one)
+            m = r.randint(7, 9)
+            names = r.sample(["q%02d" % i for i in range(24)], m)
+            pool = r.choice([[30, 31, 40, 70, 72, 45, 55, 20, 25], [3, 4, 5, 7, 8, 9, 11]])
+            nv = r.randint(8, 14)
+            ballots = [[x for x in names if r.random() < 0.3] or [r.choice(names)] for _ in range(nv)]
+            fr = F(r.choice([3, 4, 4]), 4)
         projects = [(nm, F(r.choice(pool))) for nm in names]
         tot = sum((c for _, c in projects), F(0))
-        nv = r.randint(4, 6) if irres else r.randint(6, 10)
-        distinct = [[x for x in names if r.random() < 0.5] or [names[0]] for _ in range(r.randint(3, 5))]
-        ballots = [list(r.choice(distinct)) for _ in range(nv)]
-        case = Case(projects, tot * F(r.choice([2, 3, 3, 4]), 4), "app", ballots, seed=r.getrandbits(40))
+        case = Case(projects, tot * fr, "app", ballots, seed=r.getrandbits(40))
         cfg = {"rule": "mes", "sat": r.choice(["Cost_Sat", "Cost_Sat", "Cardinality_Sat"]), "tie": "lexico", "res": not irres, "multi": r.random() < 0.3, "init": []}
         ctx.count("stream", "lazy-scan volume:" + ("irresolute" if irres else "resolute"))
         yield case, cfg
@@ -228,7 +239,7 @@ def run(ctx):
     items += ruleprops.run_items(ctx, neartie_pairs(ctx, ctx.scale(500, 5000)), predicate, nontrivial)  # round 6 (drawn last)
     items += ruleprops.run_items(ctx, negscore_pairs(ctx, ctx.scale(500, 5000)), predicate, nontrivial)
     items += ruleprops.run_items(ctx, refuse_pairs(ctx, ctx.scale(400, 4000)), predicate, nontrivial, compare=False)  # round 8 (drawn last)
-    items += ruleprops.run_items(ctx, lazy_pairs(ctx, ctx.scale(4000, 30000)), predicate, nontrivial, compare=False)
+    items += ruleprops.run_items(ctx, lazy_pairs(ctx, ctx.scale(12000, 60000)), predicate, nontrivial, compare=False)
     ctx.extra["capped_runs"] = sum(1 for it in items if getattr(it, "capped", False))
     ctx.extra["binary_sat"] = {str(k): sum(1 for it in items if it.cfg.get("binary") == k) for k in (None, True, False)}
 
